@@ -233,7 +233,8 @@ def check(case):
                      f"own-solve:{name}", f"stored interior != solution of the hand-assembled system on {name}")
     r = Mstar @ rec['x'] - vstar
     rsc = abs(Mstar) @ np.abs(rec['x']) + np.abs(vstar)
-    res.expect_small("row-residual", float(np.max(np.abs(r) / np.where(rsc == 0, 1.0, rsc))), 1e-10, f"row-residual:{name}",
+    rsc = rsc + 1e-3 * rsc.max() + 1e-300      # rows whose own terms are ~0 are measured on the system's scale
+    res.expect_small("row-residual", float(np.max(np.abs(r) / rsc)), 1e-10, f"row-residual:{name}",
                      f"solver output does not satisfy (sum of matrix terms) phi = (sum of vector terms) row by row on {name}")
     ref = oracle.ghost_reference(geo, np.asarray(phi.value), case['bc'])
     cnt = np.zeros(full.shape, int)
